@@ -26,7 +26,7 @@ for i in range(1, 21):
     letter = next(l for l in string.ascii_lowercase if l not in used)
     d = f"/tmp/seed-{p}-{letter}"
     ex = "; ".join(f"({k+1}) {(m.get('summary') or '').split('. ')[0][:170]} [{', '.join(m.get('files_touched') or [])}]" for k, m in enumerate(by.get(p, [])))
-    avoid = " Mechanisms that other contributors have used several times already and that you must NOT use again: a process-wide or per-object cache / memo / remembered last value; option parsing (nil options, zero-means-default, absolute values); a recursive read lock or a lock left held; sealing or copying in place on the caller's object; symbolic links or directory-listing changes in the file back end; tolerance for duplicate-record errors; case-insensitive or widened node-ID matching; changes to which errors count as temporary; contexts that end in the middle of a storage write; TLS session tickets or resumption; size limits on requests; a read path that writes to storage; file writes that leave stale bytes; merge-instead-of-replace when loading; skipping the close of sub-listeners on one exit path; recover() moved into a helper; hand-written digit formatting of chunk numbers."
+    avoid = " Mechanisms that other contributors have used several times already and that you must NOT use again: a process-wide or per-object cache / memo / remembered last value; option parsing (nil options, zero-means-default, absolute values); a recursive read lock or a lock left held; sealing or copying in place on the caller's object; symbolic links or directory-listing changes in the file back end; tolerance for duplicate-record errors; case-insensitive or widened node-ID matching; changes to which errors count as temporary; contexts that end in the middle of a storage write; TLS session tickets or resumption; size limits on requests; a read path that writes to storage; file writes that leave stale bytes; merge-instead-of-replace when loading; skipping the close of sub-listeners on one exit path; recover() moved into a helper; hand-written digit formatting of chunk numbers; a scratch or pooled buffer shared between calls; another DER encoding of a key; a clock reading taken before storage I/O; context deadlines shaping validity windows; ignoring io.EOF from a handshake; widening or narrowing which ALPN names count as the library's; escaping of IDs in file names; swapping or mis-applying the two clock skews; nil dereference in an error message."
     hint = styles[(i + shift) % len(styles)] + avoid + " Other contributors have already produced the following changes for this property; yours must differ from all of them in kind AND in the code site, so look for a different mechanism, file or path through the library: " + ex
     subprocess.run(['git', '-C', '/repo', 'worktree', 'add', '-q', '--detach', d, 'HEAD'], check=True)
     out = subprocess.run(['python3', 'tools/seed_prompt.py', p, d, hint], capture_output=True, text=True, check=True).stdout
